@@ -30,6 +30,11 @@ def bootstrap(import_package: bool = True) -> None:
     sched.install_lock_seam(PKG_DIR)
     if import_package:
         core.import_tree(src)
+        sched.instrument_package(PKG_DIR)
+    import gc
+
+    gc.collect()
+    gc.freeze()  # forked children then never traverse (and copy-on-write) the loaded registries
 
 
 def build_pool_isolated() -> dict:
@@ -52,22 +57,52 @@ def count_steps(op, granularity: str) -> int:
     return s.steps
 
 
-def _solo_child(op, want_steps: bool):
+def _solo_child(op):
     out, _ = ops.execute(op)
-    res = {"outcome": out}
-    if want_steps:
-        res["line"] = count_steps(op, "line")
-        res["opcode"] = count_steps(op, "opcode")
-    return res
+    return {"outcome": out}
 
 
-def solo(op, want_steps: bool = True) -> dict:
+def solo(op) -> dict:
     """Outcome of `op` executed as the only call in a pristine fork of this (pristine) process."""
     key = core.jdump(op)
     got = _SOLO.get(key)
-    if got is None or (want_steps and "line" not in got):
-        got = isolate.fork_call(_solo_child, (op, want_steps), timeout=120)
+    if got is None:
+        got = isolate.fork_call(_solo_child, (op,), timeout=120)
         _SOLO[key] = got
+    return got
+
+
+_STEPS: dict[str, int] = {}
+
+
+def steps(op, granularity: str) -> int:
+    """Pre-emption points `op` passes alone (pristine fork), per granularity; cached."""
+    key = granularity + core.jdump(op)
+    got = _STEPS.get(key)
+    if got is None:
+        got = isolate.fork_call(count_steps, (op, granularity), timeout=120)
+        _STEPS[key] = got
+    return got
+
+
+def _count_lines_child(op) -> int:
+    from .inject import LineCounter
+
+    with LineCounter() as lc:
+        ops.execute(op)
+    return lc.count
+
+
+_LINES: dict[str, int] = {}
+
+
+def lines(op) -> int:
+    """LINE events inside the package when `op` runs alone (pristine fork); cached."""
+    key = core.jdump(op)
+    got = _LINES.get(key)
+    if got is None:
+        got = isolate.fork_call(_count_lines_child, (op,), timeout=120)
+        _LINES[key] = got
     return got
 
 
